@@ -313,14 +313,15 @@ Proof.
   eapply execute_inv; eauto.
 Qed.
 
-Lemma end_block_inv : forall A I W h s, universe A I -> led_inv A I W s -> led_inv A I W (end_block h s).
+Lemma end_block_inv : forall A I W h rw s, universe A I -> sched_ok A rw -> led_inv A I W s ->
+  led_inv A I (W + sched_total rw) (end_block h rw s).
 Proof.
-  intros A I W h s (HA & HI & _) (Hwf & Hb & Hp & He & Hbu & Hw). unfold end_block.
-  assert (Hs : sched_ok A (pend s ++ esc s)) by (apply Forall_app; split; assumption).
-  destruct (credit_due_good A h (pend s ++ esc s) (bal s) HA Hs Hb) as (H1 & H2 & H3).
-  destruct (credit_due h (pend s ++ esc s) (bal s)) as [b l]. cbn [fst snd] in *.
+  intros A I W h rw s (HA & HI & _) Hrw (Hwf & Hb & Hp & He & Hbu & Hw). unfold end_block.
+  assert (Hs : sched_ok A (pend s ++ rw ++ esc s)) by (repeat (apply Forall_app; split); assumption).
+  destruct (credit_due_good A h (pend s ++ rw ++ esc s) (bal s) HA Hs Hb) as (H1 & H2 & H3).
+  destruct (credit_due h (pend s ++ rw ++ esc s) (bal s)) as [b l]. cbn [fst snd] in *.
   unfold led_inv, wealth in *; cbn [cur bal pend esc burned]. inv_split; try assumption; try constructor.
-  rewrite sched_total_app in H3. cbn [sched_total]. lia.
+  rewrite !sched_total_app in H3. cbn [sched_total]. lia.
 Qed.
 
 Definition txs_closed (A I : list N) (ts : list tx) : Prop := Forall (tx_closed A I) ts.
@@ -335,17 +336,35 @@ Proof.
   specialize (IH s1 HU HW Hcr Hstep). destruct (run_txs e h r s1) as [s2 xs]. exact IH.
 Qed.
 
-Theorem run_block_inv : forall A I W e h ts s, universe A I -> supply_bound W -> txs_closed A I ts -> led_inv A I W s ->
-  led_inv A I W (fst (run_block e h ts s)).
+(* a block mints exactly the rewards its after() phase schedules *)
+Theorem run_block_inv : forall A I W e h ts rw s, universe A I -> supply_bound W -> txs_closed A I ts -> sched_ok A rw ->
+  led_inv A I W s -> led_inv A I (W + sched_total rw) (fst (run_block e h ts rw s)).
 Proof.
-  intros. rewrite run_block_fst. apply end_block_inv; [assumption|]. apply run_txs_inv; assumption.
+  intros. rewrite run_block_fst. apply end_block_inv; try assumption. apply run_txs_inv; assumption.
 Qed.
 
-Theorem run_chain_inv : forall A I W e bs s, universe A I -> supply_bound W ->
-  Forall (fun b => txs_closed A I (snd b)) bs -> led_inv A I W s -> led_inv A I W (run_chain e bs s).
+Definition block_closed_led (A I : list N) (b : block) : Prop := txs_closed A I (block_txs b) /\ sched_ok A (snd b).
+
+Fixpoint minted_chain (bs : list block) : Z :=
+  match bs with [] => 0 | b :: r => sched_total (snd b) + minted_chain r end.
+
+Lemma minted_nonneg : forall A I bs, Forall (block_closed_led A I) bs -> 0 <= minted_chain bs.
 Proof.
-  intros A I W e bs. induction bs as [|[h ts] r IH]; intros s HU HW Hcl Hinv; [exact Hinv|].
-  inversion Hcl as [|? ? Hcb Hcr]; subst. cbn [run_chain snd] in *. apply IH; try assumption. apply run_block_inv; assumption.
+  intros A I bs H. induction H as [|b r [_ Hb] _ IH]; cbn [minted_chain]; [lia|].
+  pose proof (sched_total_nonneg A _ Hb). lia.
+Qed.
+
+(* every history: wealth = initial wealth + the rewards minted so far (the bound is on the final supply) *)
+Theorem run_chain_inv : forall A I e bs W s, universe A I -> supply_bound (W + minted_chain bs) ->
+  Forall (block_closed_led A I) bs -> led_inv A I W s -> led_inv A I (W + minted_chain bs) (run_chain e bs s).
+Proof.
+  intros A I e bs. induction bs as [|[[h ts] rw] r IH]; intros W s HU HW Hcl Hinv; cbn [minted_chain run_chain snd] in *.
+  - rewrite Z.add_0_r. exact Hinv.
+  - inversion Hcl as [|? ? [Hcb Hrw] Hcr]; subst. cbn [block_txs fst snd] in *.
+    pose proof (minted_nonneg A I r Hcr) as Hm. pose proof (sched_total_nonneg A rw Hrw) as Hr0.
+    rewrite Z.add_assoc. apply IH; try assumption.
+    + rewrite <- Z.add_assoc. exact HW.
+    + apply run_block_inv; try assumption. unfold supply_bound in *. lia.
 Qed.
 
 (* ---------- a rejected transaction changes nothing but the fee ---------- *)
@@ -506,10 +525,10 @@ Fixpoint booked_txs (e : env) (h : N) (ts : list tx) (s : st) (i : N) : Z :=
   | t :: r => booked t (snd (run_tx e h t s)) s i + booked_txs e h r (fst (run_tx e h t s)) i
   end.
 
-Fixpoint booked_chain (e : env) (bs : list (N * list tx)) (s : st) (i : N) : Z :=
+Fixpoint booked_chain (e : env) (bs : list block) (s : st) (i : N) : Z :=
   match bs with
   | [] => 0
-  | (h, ts) :: r => booked_txs e h ts s i + booked_chain e r (fst (run_block e h ts s)) i
+  | (h, ts, rw) :: r => booked_txs e h ts s i + booked_chain e r (fst (run_block e h ts rw s)) i
   end.
 
 Lemma run_txs_stake : forall A I W e h ts s i, universe A I -> supply_bound W -> txs_closed A I ts -> led_inv A I W s ->
@@ -523,26 +542,30 @@ Proof.
   specialize (IH s1 i HU HW Hcr H2). destruct (run_txs e h r s1) as [s2 xs]. cbn [fst] in *. lia.
 Qed.
 
-Theorem run_chain_stake : forall A I W e bs s i, universe A I -> supply_bound W ->
-  Forall (fun b => txs_closed A I (snd b)) bs -> led_inv A I W s ->
+Theorem run_chain_stake : forall A I e bs W s i, universe A I -> supply_bound (W + minted_chain bs) ->
+  Forall (block_closed_led A I) bs -> led_inv A I W s ->
   stake_of (run_chain e bs s) i = stake_of s i + booked_chain e bs s i.
 Proof.
-  intros A I W e bs. induction bs as [|[h ts] r IH]; intros s i HU HW Hcl Hinv; [cbn; lia|].
-  inversion Hcl as [|? ? Hcb Hcr]; subst. cbn [run_chain booked_chain snd] in *.
-  rewrite IH by (try assumption; apply run_block_inv; assumption).
-  rewrite run_block_fst at 1. unfold stake_of at 1. rewrite end_block_cur.
-  pose proof (run_txs_stake A I W e h ts s i HU HW Hcb Hinv) as H1. unfold stake_of in H1 at 1. lia.
+  intros A I e bs. induction bs as [|[[h ts] rw] r IH]; intros W s i HU HW Hcl Hinv; [cbn; lia|].
+  inversion Hcl as [|? ? [Hcb Hrw] Hcr]; subst. cbn [run_chain booked_chain minted_chain block_txs fst snd] in *.
+  pose proof (minted_nonneg A I r Hcr) as Hm. pose proof (sched_total_nonneg A rw Hrw) as Hr0.
+  assert (HW1 : supply_bound W) by (unfold supply_bound in *; lia).
+  rewrite (IH (W + sched_total rw)); try assumption.
+  - rewrite run_block_fst at 1. unfold stake_of at 1. rewrite end_block_cur.
+    pose proof (run_txs_stake A I W e h ts s i HU HW1 Hcb Hinv) as H1. unfold stake_of in H1 at 1. lia.
+  - rewrite <- Z.add_assoc. exact HW.
+  - apply run_block_inv; assumption.
 Qed.
 
 (* ---------- histories: every block ends at a boundary; the views agree after any guarded chain ---------- *)
 Lemma run_chain_boundary : forall e bs s, boundary s -> boundary (run_chain e bs s).
 Proof.
-  intros e bs. induction bs as [|[h ts] r IH]; intros s Hb; [exact Hb|]. cbn [run_chain].
+  intros e bs. induction bs as [|[[h ts] rw] r IH]; intros s Hb; [exact Hb|]. cbn [run_chain].
   apply IH. rewrite run_block_fst. apply end_block_boundary.
 Qed.
 
 Theorem history_views_agree : forall e bs s, boundary s -> reg_wf (ids e) s -> acct_unique s ->
-  Forall (fun b => block_closed (ids e) (snd b)) bs -> guarded_chain e bs s ->
+  Forall (fun b => block_closed (ids e) (block_txs b)) bs -> guarded_chain e bs s ->
   let s' := run_chain e bs s in
   forall k i, registered s' k i ->
     get_miner s' i = Some (k, cur s' k i) /\ In i (iter_ids e s' k) /\ by_account e s' (s_acct (cur s' k i)) = Some i.
@@ -566,7 +589,7 @@ Proof.
   split; [constructor|]. split; [constructor|]. split; [cbn; lia|]. vm_compute. reflexivity.
 Qed.
 
-Lemma example_guarded : guarded_chain env2 [(100%N, [TApply 2 true 0 1 400 0 true])] (empty_state rich).
+Lemma example_guarded : guarded_chain env2 [(100%N, [TApply 2 true 0 1 400 0 true], [])] (empty_state rich).
 Proof.
   cbn [guarded_chain guarded_txs]. repeat split.
   - apply boundary_covers, empty_boundary.
